@@ -134,6 +134,7 @@ def gen_case(streams: Streams, tier: str) -> dict:
         c.shuffle(crashes)
         crashes = sorted(crashes[:cap])
     return {'space': space, 'algo': algo, 'n': n, 'crashes': crashes,
+            'propose_first': c.choice([0, 0, 1, 2]),
             'continue': cfg.randint(1, 4),
             'noise': streams.sub('noise') % (2 ** 31)}
 
@@ -203,15 +204,32 @@ def _deliver(algo, dnas, j, multi, store=None):
     return reward
 
 
-def _continue(algo, dnas, kk, ww, m, multi):
-    """Late rewards arrive, then m more propose/feedback steps."""
+def _continue(algo, dnas, kk, ww, m, multi, propose_first=0):
+    """(optionally `propose_first` proposals while the rewards are still in flight,)
+    the late rewards arrive, then m more propose/feedback steps."""
     out = {'late': [], 'proposals': [], 'exc': None, 'obs_late': None, 'obs_end': None,
-           'phase': []}
+           'phase': [], 'early_phase': [], 'early_exc': None}
     dnas = list(dnas)
+    early = []
+    for _ in range(propose_first):
+        try:
+            d = algo.propose()
+        except StopIteration:
+            out['early_phase'].append('stop')
+            break
+        except Exception as e:  # pylint: disable=broad-except
+            out['early_exc'] = (type(e).__name__, str(e)[:120])
+            out['early_phase'].append('raise')
+            break
+        out['early_phase'].append(bool(d.metadata.get('initial_population', False)))
+        early.append(d)
     try:
         for j in range(kk - ww, kk):
             out['late'].append(_deliver(algo, dnas, j, multi))
         out['obs_late'] = observe(algo)
+        for d in early:
+            dnas.append(d)
+            _deliver(algo, dnas, len(dnas) - 1, multi)
         for _ in range(m):
             try:
                 d = algo.propose()
@@ -330,9 +348,28 @@ def run_case(case: dict, prop='C15'):
         # ---- faults stop: the late rewards arrive at both, then both continue
         r_dnas = [d for d, _ in hist]
         m = case.get('continue', 3)
-        tu = _continue(U, u_dnas, kk, ww, m, multi)
-        tr = _continue(R, r_dnas, kk, ww, m, multi)
+        pf = case.get('propose_first', 0) if kind not in DETERMINISTIC_KINDS else 0
+        tu = _continue(U, u_dnas, kk, ww, m, multi, pf)
+        tr = _continue(R, r_dnas, kk, ww, m, multi, pf)
         steps += 2 * m
+        if pf and tu['early_phase'] and tu['early_phase'][0] is True and \
+                tr['early_phase'][:1] != [True]:
+            # while the uninterrupted run is still in its initial-population phase
+            # (no randomness of the evolution itself involved yet), the recovered one
+            # must be as well
+            bad('C15.phase', 'initial-population-at-restart',
+                f'right after restart (rewards still in flight) the recovered instance '
+                f'{"raises " + str(tr["early_exc"]) if tr["early_exc"] else "proposes initial_population=" + str(tr["early_phase"])} '
+                f'while the uninterrupted one proposes an initial-population DNA', k, w, mode)
+            break
+        if tu['early_exc'] or tr['early_exc'] or \
+                len(tu['early_phase']) != len(tr['early_phase']):
+            # (non-deterministic kinds only) the algorithm's own arithmetic failed
+            # on one of two trajectories whose randomness is not recovered
+            probes['continuation_exception'] = probes.get('continuation_exception', 0) + 1
+            continue
+        if pf:
+            probes['proposed_before_late_rewards'] = probes.get('proposed_before_late_rewards', 0) + 1
         if tu['exc'] or tr['exc']:
             probes['continuation_exception'] = probes.get('continuation_exception', 0) + 1
             if kind in DETERMINISTIC_KINDS and tu['exc'] != tr['exc']:
